@@ -148,14 +148,12 @@ func (m *Machine) caseTerms() []*Term {
 		add(b.denom)
 		add(b.val)
 	}
-	base := append([]*Term{}, out...)
-	for _, t := range base {
-		if t.sort != SString {
-			continue
-		}
-		for _, name := range []string{"validbech32_acc", "validbech32_val"} {
-			if _, ok := m.in.ufs[name]; ok {
-				add(m.in.UF(name, SBool, t))
+	for name, args := range m.ufArgs {
+		for _, t := range args {
+			add(t)
+			add(m.in.UF(name, SBool, t))
+			if name == "validdec" {
+				add(m.in.UF("decof", SInt, t))
 			}
 		}
 	}
@@ -467,20 +465,16 @@ func (m *Machine) peekPtr(v Value) (Pointer, bool) {
 
 func (m *Machine) buildCase(label string, model map[string]string) *CaseFile {
 	ev := &modelEval{m: m, model: model, addr: map[string]string{}}
-	// strings the path treats as valid bech32 become real addresses (consistently, everywhere)
+	// strings the path treats as valid bech32 / decimals become real addresses / decimal strings
 	n := 0
-	for _, t := range m.caseTerms() {
-		if t.sort != SString {
-			continue
-		}
-		for _, kind := range []string{"acc", "val"} {
-			name := "validbech32_" + kind
-			if _, ok := m.in.ufs[name]; !ok {
-				continue
-			}
-			app := m.in.UF(name, SBool, t)
+	for _, kind := range []string{"acc", "val"} {
+		for _, t := range m.ufArgs["validbech32_"+kind] {
+			app := m.in.UF("validbech32_"+kind, SBool, t)
 			if v, ok := model[termKey(app)]; ok && strings.TrimSpace(v) == "true" {
-				raw := parseSmtString(model[termKey(t)])
+				raw := t.sv
+				if !t.IsConst() {
+					raw = parseSmtString(model[termKey(t)])
+				}
 				if _, done := ev.addr[raw]; !done && !strings.HasPrefix(raw, "mod:") {
 					n++
 					hrp := m.eng.app.prefix()
@@ -489,6 +483,18 @@ func (m *Machine) buildCase(label string, model map[string]string) *CaseFile {
 					}
 					ev.addr[raw] = genAddress(hrp, n)
 				}
+			}
+		}
+	}
+	for _, t := range m.ufArgs["validdec"] {
+		app := m.in.UF("validdec", SBool, t)
+		if v, ok := model[termKey(app)]; ok && strings.TrimSpace(v) == "true" && !t.IsConst() {
+			raw := parseSmtString(model[termKey(t)])
+			if _, isAddr := ev.addr[raw]; isAddr {
+				continue
+			}
+			if zv, ok := parseSmtInt(model[termKey(m.in.UF("decof", SInt, t))]); ok {
+				ev.addr[raw] = decString(zv)
 			}
 		}
 	}
